@@ -128,9 +128,68 @@ func (fc *FnCtx) guardAddrs(m *Monitor, base string) []*Addr {
 	return out
 }
 
+// lockClassKey: "pkg.Type.path" of a mutex address inside a struct.
+func lockClassKey(a *Addr) string {
+	if a.Kind != AObj {
+		return ""
+	}
+	n := namedOf(a.Root)
+	if n == nil || n.Obj().Pkg() == nil {
+		return ""
+	}
+	p, _ := pathName(a.Root, a.Path)
+	return n.Obj().Pkg().Path() + "." + n.Obj().Name() + "." + p
+}
+
+// blockingOp: an operation that may block is only allowed while no
+// non-blocking-class lock is held, and not at all in `effect nonblocking` functions.
+func (fc *FnCtx) blockingOp(fr *Frame, st *State, reach, what string) {
+	if fc.quiet > 0 {
+		return
+	}
+	keys := make([]string, 0, len(st.nbLocks))
+	for k := range st.nbLocks {
+		keys = append(keys, k)
+	}
+	sort.Strings(keys)
+	for _, k := range keys {
+		fc.oblige(fr, "blocking", what+" while holding "+k[:strings.LastIndex(k, "@")]+" (its critical sections must not block)", reach, tNot(st.nbLocks[k]), false, nil)
+	}
+	if fc.con != nil && fc.con.Effect == "nonblocking" {
+		fc.oblige(fr, "blocking", what+" in a function declared non-blocking", reach, "false", false, nil)
+	}
+}
+
+// unboundedWait: in a function declared `effect bounded` every wait must be
+// bounded by a context (a select with a ctx.Done() case) or be on a lock whose
+// critical sections never block.
+func (fc *FnCtx) unboundedWait(fr *Frame, reach, what string) {
+	if fc.quiet > 0 || fc.con == nil || fc.con.Effect != "bounded" {
+		return
+	}
+	fc.oblige(fr, "unbounded-wait", what+" is not bounded by a context", reach, "false", false, nil)
+}
+
 func (fc *FnCtx) lockOp(fr *Frame, st *State, reach string, op string, mu Val, call ssa.CallInstruction) {
 	if mu.K != KAddr {
 		return
+	}
+	if ck := lockClassKey(mu.A); ck != "" {
+		acquire := strings.HasSuffix(op, ".Lock") || strings.HasSuffix(op, ".RLock")
+		if fc.eng.lockClasses[ck] {
+			if st.nbLocks == nil {
+				st.nbLocks = map[string]string{}
+			}
+			if acquire {
+				st.nbLocks[ck+"@"+mu.A.Base] = "true"
+			} else {
+				st.nbLocks[ck+"@"+mu.A.Base] = "false"
+			}
+		} else if acquire {
+			// acquiring a lock whose sections may block is itself a blocking operation
+			fc.blockingOp(fr, st, reach, "acquiring "+ck)
+			fc.unboundedWait(fr, reach, "acquiring "+ck[strings.LastIndex(ck, "/")+1:]+" (a lock whose sections may block)")
+		}
 	}
 	m := fc.monitorForMutex(mu.A)
 	if m == nil {
